@@ -5,6 +5,7 @@ import (
 	"errors"
 	"fmt"
 	"strconv"
+	"strings"
 
 	"github.com/scrapli/scrapligo/util"
 )
@@ -36,6 +37,11 @@ func (d *Driver) ServerCapabilities() []string {
 func (d *Driver) SessionID() uint64 {
 	return d.sessionID
 }
+
+// xmlUnescaper resolves the predefined XML entities in a capability URI ("&amp;" last).
+var xmlUnescaper = strings.NewReplacer( //nolint:gochecknoglobals
+	"&lt;", "<", "&gt;", ">", "&quot;", `"`, "&apos;", "'", "&amp;", "&",
+)
 
 type result struct {
 	b   []byte
@@ -107,7 +113,7 @@ func (d *Driver) processServerCapabilities() error {
 
 	d.serverCapabilities = make([]string, 0, len(serverCapabilitiesMatches))
 	for _, match := range serverCapabilitiesMatches {
-		d.serverCapabilities = append(d.serverCapabilities, string(match[1]))
+		d.serverCapabilities = append(d.serverCapabilities, xmlUnescaper.Replace(string(match[1])))
 	}
 
 	// extract session id if it exists in the hello message
